@@ -224,7 +224,7 @@ class S3LockProviderBase(LockProvider):
             content = resp['Body'].read().decode('utf-8')
 
             if self._owner_of(content) == self.lock_id:
-                self.s3.delete_object(Bucket=self.bucket, Key=self.key)
+                self._delete_own_lock(resp.get('ETag'))
             else:
                 logger.warning(f"Skipping release of S3 lock at {self.key}: Lock owner changed (expected {self.lock_id}, got {content})")
 
@@ -242,6 +242,10 @@ class S3LockProviderBase(LockProvider):
         self._lease_deadline = None
         with self._state_lock:
             self._etag = None
+
+    def _delete_own_lock(self, etag: Optional[str]) -> None:
+        """Delete the lock object whose read-back (version `etag`) showed our id."""
+        self.s3.delete_object(Bucket=self.bucket, Key=self.key)
 
 
 class S3LockProvider(S3LockProviderBase):
@@ -322,6 +326,32 @@ class S3LockProvider(S3LockProviderBase):
                 # Someone else renewed, took over, or released meanwhile - not ours.
                 return False
             raise e
+
+    def _delete_own_lock(self, etag: Optional[str]) -> None:
+        """Delete the lock object only if it is still the version we read back.
+
+        release() reads the object and then deletes it. Between the two, a
+        contender may legitimately take over a lapsed lease; an unconditional
+        DELETE would then remove the NEW holder's live lock and let a third
+        party acquire alongside it. The delete is therefore keyed to the ETag
+        of the version that carried our id. Stores without conditional deletes
+        fall back to the plain delete.
+        """
+        import botocore.exceptions
+
+        if not etag:
+            self.s3.delete_object(Bucket=self.bucket, Key=self.key)
+            return
+        try:
+            self.s3.delete_object(Bucket=self.bucket, Key=self.key, IfMatch=etag)
+        except botocore.exceptions.ClientError as e:
+            error_code = e.response.get('Error', {}).get('Code', '')
+            if error_code in ('PreconditionFailed', '412', 'ConditionalRequestConflict'):
+                logger.warning(f"Skipping release of S3 lock at {self.key}: lock object changed since read-back")
+            elif error_code in ('NotImplemented', '501'):
+                self.s3.delete_object(Bucket=self.bucket, Key=self.key)
+            else:
+                raise
 
     def _renew_once(self) -> None:
         """Renew the lease with a conditional PUT keyed to our last-known ETag."""
